@@ -1,27 +1,27 @@
 SPECIFICATION MCSpec
 CONSTANTS
- N = 4
- T = 3
+ N = 3
+ T = 2
  NV = 1
- Cmds = {1, 2, 3, 4}
+ Cmds = {1}
  DupLastWins = TRUE
  Defect = "none"
- Honest = {1, 2, 3}
- Args <- ArgsOne
- ByzPosts <- ByzNone
- MaxByz = 0
- Faults <- FNone
- MaxFault = 0
- Tampers <- TNone
- MaxTamper = 0
+ Honest = {1, 2}
+ Args <- ArgsFetch
+ ByzPosts <- Byz3
+ MaxByz = 2
+ Faults <- FApi
+ MaxFault = 2
+ Tampers <- TGroups
+ MaxTamper = 1
  Plants <- PNone
  MaxPlant = 0
- Ticks <- TkNone
- MaxTick = 0
+ Ticks <- TkHour
+ MaxTick = 4
  Nodes = {1}
  NodeApiOn = TRUE
- NodeWatch = TRUE
- MaxNode = 1
+ NodeWatch = FALSE
+ MaxNode = 2
  Policy = "free"
 INVARIANTS Safety ViewNewest TimerSane
 PROPERTIES MCFetchWritesGood MCFileStable MCNodeKeeps MCSignJoins
